@@ -37,6 +37,8 @@ enum YCol {
     OnPlusOff,
     ThreeOn,
     Custom(Vec<f64>),
+    /// the noisy column scaled by 1e-3 (coefficients and W D_k C of order 1e-3)
+    Small,
 }
 
 #[derive(Debug, Clone, Copy, PartialEq)]
@@ -119,6 +121,12 @@ fn ycolumn(spec: &ModelSpec, gen_alpha: &[f64], c: &YCol) -> DVector<f64> {
         YCol::Zero => DVector::zeros(n),
         YCol::OnPlusOff => on() + off(),
         YCol::Custom(v) => DVector::from_vec(v.clone()),
+        YCol::Small => {
+            let y = on();
+            let mx = y.amax().max(1e-300);
+            let nz = noise(n, 3, 5);
+            DVector::from_fn(n, |i, _| 1e-3 * (y[i] + 0.02 * mx * nz[i]))
+        }
     }
 }
 
@@ -832,6 +840,15 @@ fn polymat_diag(d2: f64) -> Family {
     Family::PolyMat(Arc::new(PolySpec { n: 3, m: 2, p: 1, a0: vec![0.0; 6], a: vec![vec![1.0, 0.0, 0.0, d2, 0.0, 0.0]], b: vec![vec![0.0; 6]] }))
 }
 
+fn polymat_diag_rev(d2: f64) -> Family {
+    // Phi(a) = a * [[d2,0],[0,1],[0,0]] : the small (or zero) singular value belongs to the FIRST basis function
+    Family::PolyMat(Arc::new(PolySpec { n: 3, m: 2, p: 1, a0: vec![0.0; 6], a: vec![vec![d2, 0.0, 0.0, 1.0, 0.0, 0.0]], b: vec![vec![0.0; 6]] }))
+}
+fn polymat_three(d: [f64; 3]) -> Family {
+    // 4 x 3, exactly diagonal with the given entries (any order of magnitudes)
+    Family::PolyMat(Arc::new(PolySpec { n: 4, m: 3, p: 1, a0: vec![0.0; 12], a: vec![vec![d[0], 0.0, 0.0, 0.0, d[1], 0.0, 0.0, 0.0, d[2], 0.0, 0.0, 0.0]], b: vec![vec![0.0; 12]] }))
+}
+
 fn base_families() -> Vec<(Family, usize)> {
     vec![
         (Family::Exp1Off, 7),
@@ -942,6 +959,22 @@ fn scenarios(prop: &str, thorough: bool) -> Vec<Scen> {
                             }
                         }
                     }
+                    // the small / vanishing singular value in every position of the decomposition's output
+                    for (fam, n, ycol) in [
+                        (polymat_diag_rev(1e-5), 3usize, vec![3e-5, 2.0, 0.5]),
+                        (polymat_diag_rev(0.0), 3, vec![1.0, 2.0, 0.5]),
+                        (polymat_three([0.25, 4.0, 1.0]), 4, vec![1.0, 8.0, 3.0, 0.5]),
+                        (polymat_three([4.0, 0.25, 1.0]), 4, vec![8.0, 1.0, 3.0, 0.5]),
+                        (polymat_three([1.0, 4.0, 0.25]), 4, vec![3.0, 8.0, 1.0, 0.5]),
+                        (polymat_three([0.0, 4.0, 1.0]), 4, vec![1.0, 8.0, 3.0, 0.5]),
+                    ] {
+                        for eps in [EpsKind::Default, EpsKind::Val(1e-2), EpsKind::Val(0.6), EpsKind::Val(-2.0)] {
+                            let mut s = mk(&fam, n, Prov::Hand, f32_, par, Api::Single, vec![YCol::Custom(ycol.clone())], WKind::None, eps);
+                            s.exact = true;
+                            s.alphas = vec![vec![1.0], vec![1.0], vec![2.0], vec![0.5]];
+                            v.push(s);
+                        }
+                    }
                     // default threshold is the machine epsilon of the scalar type
                     let e = if f32_ { f32::EPSILON as f64 } else { f64::EPSILON };
                     for d2 in [0.4375 * e, 4.5 * e] {
@@ -965,6 +998,9 @@ fn scenarios(prop: &str, thorough: bool) -> Vec<Scen> {
                         s.alphas = vec![vec![1.0], vec![1.25], vec![0.0], vec![-0.0], vec![2.0]];
                         v.push(s);
                         for (fam, n) in [(Family::Exp2Off, 9usize), (Family::OLeary, 8)] {
+                            // small observations under a user threshold: |W D_k C| < threshold although W Phi is well conditioned
+                            v.push(mk(&fam, n, prov, f32_, par, Api::Mrhs, vec![YCol::Small, YCol::Noisy], WKind::None, EpsKind::Val(1e-2)));
+                            v.push(mk(&fam, n, prov, f32_, par, Api::Single, vec![YCol::Small], WKind::Ramp, EpsKind::Val(1e-2)));
                             let mut s = mk(&fam, n, prov, f32_, par, Api::Mrhs, vec![YCol::Noisy, YCol::Off], WKind::Ramp, EpsKind::Val(1e-2));
                             let g = s.alphas[1].clone();
                             s.alphas = vec![s.alphas[0].clone(), g.clone(), g.iter().map(|v| v + 2e-3).collect(), g.iter().map(|v| v - 4e-3).collect(), s.alphas[2].clone()];
